@@ -2,6 +2,7 @@
 CONSTANTS Chans = {1, 2, 3, 4} Rows = {0, 1, 2, 3, 4, 5, 6, 7, 8, 9, 10, 11, 12, 13, 14} Chars = {65, 98, 32, 42} MaxPairs = 14
   Indents = {0, 4, 8, 12, 16, 20, 24, 28} Depths = {2, 3, 4} Tabs = {1, 2, 3}
   Kinds = {"RCL", "RDC", "EOC", "EDM", "ENM", "CR", "BS", "DER", "RU", "TO", "PAC", "PACX", "MID", "SPC", "NULL", "TEXT"}
+  Beyond = {}
   Mix <- MixBroad Bursts <- BurstsWalk
 SPECIFICATION GSpec
 INVARIANT Dump
